@@ -185,7 +185,20 @@ fn enabled(inst: &Instance, hist: &[Act], r: &RunResult) -> Vec<Act> {
                                 break;
                             }
                         }
-                        ks.push(1);
+                        // single bytes only next to a frame boundary (first byte of a frame, last
+                        // byte of a frame): every position of a long stream would otherwise be a state
+                        let at_boundary = {
+                            let mut acc2 = 0usize;
+                            let mut hit = r.pos == 0;
+                            for f in inst.frames.iter() {
+                                acc2 += f.len();
+                                if acc2 == r.pos { hit = true; }
+                            }
+                            hit
+                        };
+                        if at_boundary || to_b <= 2 {
+                            ks.push(1);
+                        }
                         if to_b > 1 {
                             ks.push(to_b - 1);
                         }
